@@ -243,6 +243,8 @@ func (m *mon) canon(ctor string, j jid.JID, how string, xmlToo bool) bool {
 		}
 	}
 
+	m.resplits(ctor, j, how)
+
 	// L1
 	p, err := jid.Parse(s)
 	ok := true
@@ -338,6 +340,20 @@ func (m *mon) agree(ctor string, got jid.JID, gerr error, want jid.JID, werr err
 	return true
 }
 
+// countDomainShape records the domain shapes the generator aims at.
+func countDomainShape(c *core.Case, d string) {
+	ld := strings.ToLower(d)
+	if strings.Contains(ld, "xn--xn--") {
+		c.Count("inputs_multiply_encoded_alabel", 1)
+	}
+	for _, label := range strings.Split(ld, ".") {
+		if strings.HasPrefix(label, "-") || strings.HasSuffix(label, "-") || len(label) > 3 && label[2:4] == "--" && !strings.HasPrefix(label, "xn--") {
+			c.Count("inputs_hyphen_placement", 1)
+			break
+		}
+	}
+}
+
 // evalString judges one address string: the exported split functions against
 // the reference split, Parse against New on the reference split, and the
 // canonical-form laws on whatever was accepted.
@@ -350,6 +366,7 @@ func (m *mon) evalString(s string, derived string, depth int) {
 		c.Count("inputs_invalid_utf8", 1)
 	}
 	l, d, r, emptyLocal, emptyRes := refSplit(s)
+	countDomainShape(c, d)
 
 	// the exported split, safe and unsafe
 	c.Count("law_L4_split_evaluations", 1)
@@ -399,6 +416,7 @@ func (m *mon) evalParts(l, d, r string, derived string, depth int) {
 	if !utf8.ValidString(l) || !utf8.ValidString(d) || !utf8.ValidString(r) {
 		c.Count("inputs_invalid_utf8", 1)
 	}
+	countDomainShape(c, d)
 	nj, nerr := jid.New(l, d, r)
 	if nerr != nil {
 		c.Count("rejected", 1)
@@ -602,6 +620,9 @@ func Prop() *core.Prop {
 			"law_L5_xml_roundtrips",
 			"alias_sequences", "alias_ops", "alias_held_values_rechecked", "alias_base_shrank_under_normalisation",
 			"alias_WithResource_on_receiver_without_resourcepart", "alias_WithResource_fits_in_bytes_behind_receiver", "alias_two_results_from_one_receiver",
+			"equal_resplit_pairs", "equal_resplit_same_domain_length", "equal_resplit_same_local_length", "equal_resplit_same_resource_length",
+			"equal_pairwise_checks", "equal_pairwise_equal_pairs", "equal_pairwise_prefix_or_case_variant_pairs", "equal_zero_value_checks",
+			"inputs_multiply_encoded_alabel", "inputs_hyphen_placement",
 			"decode_sequences", "decode_ops", "decode_into_used_destination", "decode_into_used_destination_failed", "decode_into_used_destination_not_longer",
 			"decode_into_used_destination_longer", "decode_late_failing_into_used_destination",
 			"decode_destination_variable", "decode_destination_struct-field-attribute", "decode_destination_struct-field-element", "decode_destination_slice-element", "decode_destination_method-call",
